@@ -475,6 +475,12 @@ def kxk_positions(rnd, n):
     return out
 
 
+OVER_MATERIAL = ["6nk/6pp/8/8/8/8/QQQQQQQQ/KQQQQQQQ b - - 0 1", "6nk/6pp/8/8/8/8/QQQQQQQQ/KQQQQQQQ w - - 0 1",
+                 "7k/6pp/NNNNN3/NNNNNNNN/NNNNNNNN/NNNNNNNN/NNNNNNNN/K1NNNNNN b - - 0 1",
+                 "1QQQQQQQ/QQQQQQQQ/8/8/8/8/6pp/K5nk w - - 0 1", "8/8/2Q1QQ2/2Q1QQ2/2Q1QQ2/2Q1Q3/8/3k2K1 w - - 0 1",
+                 "8/1R6/2QB4/2Q1QQ2/2Q1QQ2/2Q1Q3/8/3k2K1 w - - 0 1", "3K2k1/8/2q1q3/2q1qq2/2q1qq2/2q1qq2/8/8 b - - 0 1"]
+
+
 def vary_clocks(f, rnd):
     """the same position with other move counters (what the rules of C05/C13 and the hash ignore): small, around the
     fifty-move mark, huge"""
@@ -490,6 +496,8 @@ def c05(res, tier, seed, deep):
     n = 40000 if tier == "thorough" else (12000 if deep else 5000)
     rnd = random.Random(seed)
     fens = [vary_clocks(f, rnd) for f in positions(seed + 13, n) + kxk_positions(rnd, n * 2)]
+    # extreme material: the heuristic sum passes the mate thresholds there and is clamped (F10)
+    fens += OVER_MATERIAL + heavy_positions()
     reqs = []
     for f in fens:
         ply = rnd.choice([0, 1, 2, 3, 5, 9, 10, 11, 17, 40])
@@ -513,7 +521,7 @@ def c05(res, tier, seed, deep):
 def c13(res, tier, seed, deep):
     n = 25000 if tier == "thorough" else (8000 if deep else 3000)
     rnd = random.Random(seed)
-    fens = [vary_clocks(f, rnd) for f in positions(seed + 15, n) + kxk_positions(rnd, n)]
+    fens = [vary_clocks(f, rnd) for f in positions(seed + 15, n) + kxk_positions(rnd, n)] + OVER_MATERIAL + heavy_positions()
     reqs = []
     for f in fens:
         ply = rnd.choice([0, 1, 4, 12])
